@@ -66,15 +66,20 @@ structure Cfg where
   statsUnwire : Bool
   /-- the variant of `ofp_match` (C03: D37, D38, D26) -/
   mv : Variant
+  /-- repair D36 (`fixes/C04_D36_tos_dscp.diff`): `from_packet` stores `p.tos & 0xfc`, `matches_with_wildcards` and
+      `_matches_overlap` compare `nw_tos & 0xfc` -/
+  tosDscp : Bool
   deriving DecidableEq, Repr
 
-def Cfg.head : Cfg := { strictMutual := false, maskUndefined := false, statsUnwire := false, mv := Variant.head }
-def Cfg.repaired : Cfg := { strictMutual := true, maskUndefined := true, statsUnwire := true, mv := Variant.repaired }
+def Cfg.head : Cfg := { strictMutual := false, maskUndefined := false, statsUnwire := false, mv := Variant.head, tosDscp := false }
+def Cfg.repaired : Cfg := { strictMutual := true, maskUndefined := true, statsUnwire := true, mv := Variant.repaired, tosDscp := true }
 
 /-- `TableEntry.effective_priority` of the code variant: the key the table is sorted by -/
 def Cfg.key (cfg : Cfg) {α : Type} (e : Entry α) : Nat := cfg.mv.effectivePriority e
 
 def OFPP_NONE : Nat := 0xffff
+def OFPP_CONTROLLER : Nat := 0xfffd
+def OFPP_TABLE : Nat := 0xfff9
 /-- bit numbers of `OFPFF_SEND_FLOW_REM = 1`, `OFPFF_CHECK_OVERLAP = 2`, `OFPFF_EMERG = 4` -/
 def FF_SEND_FLOW_REM : Nat := 0
 def FF_CHECK_OVERLAP : Nat := 1
@@ -190,9 +195,9 @@ structure FlowStat where
 inductive Out where
   | flowRemoved (m : RemovedMsg)
   | error (etype code : Nat)
-  /-- table miss: `ofp_packet_in`, reason NO_MATCH, with the buffer id the frame was stored under (`none`: no room; the
-      data carried is C18's subject) -/
-  | packetIn (inPort : Nat) (bufferId : Option Nat)
+  /-- `ofp_packet_in` with the buffer id the frame was stored under (`none`: no room; the data carried is C18's subject);
+      reason 0 = NO_MATCH (table miss), 1 = ACTION (output:CONTROLLER of the matching entry or of a flow-mod releasing a buffer) -/
+  | packetIn (inPort : Nat) (bufferId : Option Nat) (reason : Nat)
   /-- the frame stored under `id` is handed to `_process_actions_for_packet` with `actions`, and its slot is freed -/
   | release (id : Nat) (frame : BFrame) (actions : List Action)
   | flowStats (l : List FlowStat)
@@ -232,10 +237,19 @@ def outputsTo (p : Nat) : Action → Bool
   | .output q _ => q == p
   | .other _ _ => false
 
+/-- `tos & 0xfc` of a ToS byte -/
+def dscpOf (t : Nat) : Nat := t / 4 * 4
+
+/-- a match as the repaired comparisons (D36) read it: `nw_tos & 0xfc` (`None` stays `None`) -/
+def dscp (cfg : Cfg) (m : OfMatch) : OfMatch := if cfg.tosDscp then { m with nwTos := dscpOf m.nwTos } else m
+
+/-- `self.matches_with_wildcards(other, consider_other_wildcards)` of the code variant -/
+def matchW (cfg : Cfg) (c : Bool) (self other : OfMatch) : Bool := matchesWith c (dscp cfg self) (dscp cfg other)
+
 /-- the strict test of `is_matched_by`: `self.match == match` at HEAD; with repair C04-1
     `match.matches_with_wildcards(self.match) and self.match.matches_with_wildcards(match)` -/
 def strictMatch (cfg : Cfg) (entry m : OfMatch) : Bool :=
-  if cfg.strictMutual then m.matchesWith true entry && entry.matchesWith true m else eqMatch entry m
+  if cfg.strictMutual then matchW cfg true m entry && matchW cfg true entry m else eqMatch entry m
 
 /-- `entry.is_matched_by(match, priority, strict, out_port)` -/
 def isMatchedBy (cfg : Cfg) (e : FEntry) (m : OfMatch) (prio : Nat) (strict : Bool) (outPort : Option Nat) : Bool :=
@@ -243,7 +257,7 @@ def isMatchedBy (cfg : Cfg) (e : FEntry) (m : OfMatch) (prio : Nat) (strict : Bo
     | none => true
     | some p => e.data.actions.any (outputsTo p)
   if strict then portOk && strictMatch cfg e.mtch m && e.priority == prio
-  else portOk && m.matchesWith true e.mtch
+  else portOk && matchW cfg true m e.mtch
 
 /-- `touch_packet(byte_count, now)` -/
 def touch (len now : Nat) (e : FEntry) : FEntry :=
@@ -294,13 +308,13 @@ def overlapsWith (a b : OfMatch) : Bool :=
   Fld.all.all (fun f => viewOverlap (a.view f) (b.view f)) && nwOverlap a.srcView b.srcView && nwOverlap a.dstView b.dstView
 
 /-- `check_for_overlapping_entry(in_entry)` as written: scan in table order, stop at the first lower effective priority -/
-def overlapScan (key : Entry EData → Nat) (prio : Nat) (m : OfMatch) : Table EData → Bool
+def overlapScan (cfg : Cfg) (prio : Nat) (m : OfMatch) : Table EData → Bool
   | [] => false
   | e :: r =>
-    if key e < prio then false
-    else if key e > prio then overlapScan key prio m r
-    else if overlapsWith e.mtch m then true
-    else overlapScan key prio m r
+    if cfg.key e < prio then false
+    else if cfg.key e > prio then overlapScan cfg prio m r
+    else if overlapsWith (dscp cfg e.mtch) (dscp cfg m) then true
+    else overlapScan cfg prio m r
 
 def flowModFailed (s : State) (code : Nat) : State × List Out := (s, [.error OFPET_FLOW_MOD_FAILED code])
 
@@ -321,7 +335,7 @@ def addBase (s : State) (fm : FlowModMsg) : Table EData :=
 def flowModAdd (s : State) (fm : FlowModMsg) : State × List Out :=
   if fm.flags.testBit FF_EMERG then flowModFailed s (emergCode fm)
   else if fm.flags.testBit FF_CHECK_OVERLAP &&
-      overlapScan s.cfg.key (s.cfg.key (mkEntry s.cfg s.now fm)) (rxMatch s.cfg fm.mtch) s.table then
+      overlapScan s.cfg (s.cfg.key (mkEntry s.cfg s.now fm)) (rxMatch s.cfg fm.mtch) s.table then
     flowModFailed s OFPFMFC_OVERLAP
   else if (addBase s fm).length ≥ s.maxEntries then flowModFailed { s with table := addBase s fm } OFPFMFC_ALL_TABLES_FULL
   else ({ s with table := addEntryBy s.cfg.key (mkEntry s.cfg s.now fm) (addBase s fm) }, [])
@@ -351,13 +365,28 @@ def flowModHandler (s : State) (fm : FlowModMsg) : State × List Out :=
   | .deleteStrict => flowModDelete s fm true
   | .unknown _ => flowModFailed s OFPFMFC_BAD_COMMAND
 
+/-- how many of the actions are `output:CONTROLLER` -/
+def ctlCount (actions : List Action) : Nat := (actions.filter (outputsTo OFPP_CONTROLLER)).length
+
+/-- `_output_packet(packet, OFPP_CONTROLLER, …)` once per such action: `_buffer_packet` and a packet-in with reason ACTION
+    (the frame itself is the one that came in: see `actsOk`) -/
+def ctlSend (pool : Pool BFrame) (f : BFrame) : Nat → Pool BFrame × List Out
+  | 0 => (pool, [])
+  | n + 1 =>
+    let a := alloc pool f
+    let r := ctlSend a.1 f n
+    (r.1, .packetIn f.inPort a.2 1 :: r.2)
+
 /-- `_process_actions_for_packet_from_buffer(actions, buffer_id, ofp)`; `id` is the wire value (unsigned), Python's
-    `buffer_id - 1 < 0` is `id = 0` -/
+    `buffer_id - 1 < 0` is `id = 0`.  The actions run *before* the slot is cleared: a packet sent to the controller again is stored
+    in another slot. -/
 def bufferUse (s : State) (id : Nat) (actions : List Action) : State × List Out :=
   if id = 0 ∨ id - 1 ≥ s.pool.slots.length then (s, [.error OFPET_BAD_REQUEST OFPBRC_BUFFER_UNKNOWN])
   else match s.pool.slots.getD (id - 1) none with
     | none => (s, [.error OFPET_BAD_REQUEST OFPBRC_BUFFER_EMPTY])
-    | some f => ({ s with pool := { s.pool with slots := s.pool.slots.set (id - 1) none } }, [.release id f actions])
+    | some f =>
+      let c := ctlSend s.pool f (ctlCount actions)
+      ({ s with pool := { c.1 with slots := c.1.slots.set (id - 1) none } }, c.2 ++ [.release id f actions])
 
 /-- the tail of `_rx_flow_mod`: an unknown command returns before it; otherwise — whatever the handler did, including a refusal —
     a named buffer is released through the flow-mod's actions -/
@@ -387,13 +416,37 @@ def modifyFirst {α : Type} (p : α → Bool) (f : α → α) : List α → List
   | [] => []
   | x :: r => if p x then f x :: r else x :: modifyFirst p f r
 
-/-- `rx_packet`: `entry_for_packet` then `touch_packet(len(packet))`; on a miss `_buffer_packet` and a packet-in -/
+/-- the frame as `from_packet` reads it: with repair D36 `match.nw_tos = p.tos & 0xfc` -/
+def clearEcn (cfg : Cfg) (p : PHdr) : PHdr :=
+  if cfg.tosDscp then
+    match p.l3 with
+    | .ipv4 sa da pr tos frag l4 => { p with l3 := .ipv4 sa da pr (dscpOf tos) frag l4 }
+    | _ => p
+  else p
+
+/-- `ofp_match.from_packet(packet, in_port, spec_frags=True)` of the code variant -/
+def pktMatch (cfg : Cfg) (p : PHdr) (inPort : Nat) : OfMatch := cfg.mv.fromPacket (clearEcn cfg p) inPort
+
+/-- `entry.match.matches_with_wildcards(packet_match, consider_other_wildcards=False)` -/
+def accepts (cfg : Cfg) (pm : OfMatch) (e : FEntry) : Bool := matchW cfg false e.mtch pm
+
+/-- the actions of the first element satisfying `p` -/
+def hitActions (p : FEntry → Bool) (t : Table EData) : List Action :=
+  match t.find? p with
+  | some e => e.data.actions
+  | none => []
+
+/-- `rx_packet` / `_lookup_packet`: `entry_for_packet`, `touch_packet(len(packet))`, then the entry's actions — of which the model
+    follows the outputs to the controller (each buffers the frame and writes a packet-in); on a miss `_buffer_packet` and a
+    packet-in -/
 def packetStep (s : State) (p : PHdr) (inPort len : Nat) : State × List Out :=
-  let acc := Entry.accepts (α := EData) (s.cfg.mv.fromPacket p inPort)
-  if s.table.any acc then ({ s with table := modifyFirst acc (touch len s.now) s.table }, [])
+  let acc := accepts s.cfg (pktMatch s.cfg p inPort)
+  if s.table.any acc then
+    let c := ctlSend s.pool { hdr := p, len := len, inPort := inPort } (ctlCount (hitActions acc s.table))
+    ({ s with table := modifyFirst acc (touch len s.now) s.table, pool := c.1 }, c.2)
   else
     let a := alloc s.pool { hdr := p, len := len, inPort := inPort }
-    ({ s with pool := a.1 }, [.packetIn inPort a.2])
+    ({ s with pool := a.1 }, [.packetIn inPort a.2 0])
 
 def portFilter (outPort : Nat) : Option Nat := if outPort = OFPP_NONE then none else some outPort
 
